@@ -158,7 +158,7 @@ impl Prop for C12 {
     }
     fn runs(&self, tier: Tier) -> u64 {
         match tier {
-            Tier::Quick => 4000,
+            Tier::Quick => 6000,
             Tier::Thorough => 100000,
         }
     }
